@@ -112,8 +112,15 @@ impl Local {
     fn merge(&mut self, o: Local) {
         self.evals += o.evals;
         self.fingerprints.extend(o.fingerprints);
+        let slowest_here = self.counters.get("max.case-wall-ms").copied().unwrap_or(0);
+        let slowest_there = o.counters.get("max.case-wall-ms").copied().unwrap_or(0);
         for (k, v) in o.counters {
-            if k.starts_with("max.") {
+            if k == "max.case-wall-ms.case" {
+                // (travels with its maximum)
+                if slowest_there > slowest_here || !self.counters.contains_key(&k) {
+                    self.counters.insert(k, v);
+                }
+            } else if k.starts_with("max.") {
                 let e = self.counters.entry(k).or_default();
                 if v > *e {
                     *e = v;
@@ -135,6 +142,7 @@ impl Local {
 /// run down: it is recorded and turns the verdict into INCONCLUSIVE.
 fn guarded_case<F: Fn(u64, &mut Local)>(f: &F, case: u64, l: &mut Local) {
     crate::logmon::for_case(case);
+    let t_case = std::time::Instant::now();
     let r = std::panic::catch_unwind(std::panic::AssertUnwindSafe(|| f(case, l)));
     if r.is_err() {
         let site = crate::api::last_panic_site();
@@ -142,6 +150,12 @@ fn guarded_case<F: Fn(u64, &mut Local)>(f: &F, case: u64, l: &mut Local) {
         if l.internal_errors.len() < 5 {
             l.internal_errors.push(format!("case {case}: harness code panicked at {site}"));
         }
+    }
+    // the slowest case of the run (milliseconds, and which one): "max." counters are merged by maximum
+    let ms = t_case.elapsed().as_millis() as u64;
+    if ms > l.counters.get("max.case-wall-ms").copied().unwrap_or(0) {
+        l.counters.insert("max.case-wall-ms".into(), ms);
+        l.counters.insert("max.case-wall-ms.case".into(), case);
     }
 }
 
